@@ -149,7 +149,31 @@ fn cmd_replay(args: &[String]) -> i32 {
             for vi in &viols {
                 println!("REPRODUCED {} {}: {}", vi.prop, vi.sig, vi.msg);
             }
-            if viols.is_empty() {
+            let mut c19 = 0;
+            if prop == "C19" {
+                if let Some(l) = &o.layout {
+                    let (_, vs) = planmc::c19_check(&ops, l, 360);
+                    for (sig, msg) in &vs {
+                        println!("REPRODUCED C19 {}: {}", sig, msg);
+                    }
+                    c19 += vs.len();
+                    if let Some(map) = v.get("resmap").and_then(|m| m.as_array()) {
+                        let map: Vec<u8> = map.iter().filter_map(|x| x.as_u64().map(|y| y as u8)).collect();
+                        match obs::layout_of(&ops, &map) {
+                            Ok(l2) if l2 == *l => {}
+                            Ok(l2) => {
+                                println!("REPRODUCED C19 plan-depends-on-resource-identity: relabelled by {:?} the layout becomes {}", map, l2.short());
+                                c19 += 1;
+                            }
+                            Err(e) => {
+                                println!("REPRODUCED C19 transformed-plan-rejected: {}", e);
+                                c19 += 1;
+                            }
+                        }
+                    }
+                }
+            }
+            if viols.is_empty() && c19 == 0 {
                 println!("not reproduced");
                 0
             } else {
